@@ -16,7 +16,7 @@ From Coq Require Import Ascii String List NArith.
 Import ListNotations.
 Require Import Laze.model.Base Laze.model.Env Laze.model.Allow Laze.model.Ninja Laze.model.Ctx
         Laze.model.Resolver Laze.model.Imports Laze.model.Generate Laze.model.Checks
-        Laze.model.Path Laze.proofs.StmtFacts Laze.proofs.GenerateFacts Laze.proofs.WfFacts Laze.proofs.OutTargets.
+        Laze.model.Path Laze.proofs.StmtFacts Laze.proofs.GenerateFacts Laze.proofs.WfFacts Laze.proofs.OutTargets Laze.proofs.RuleOnce.
 Open Scope list_scope.
 
 Theorem C06_file_shape_partial : forall H EV b le bsel asel local part select disable cli_env g,
@@ -72,6 +72,27 @@ Theorem C06_downloads_under_build_dir : forall build_dir d relpath name,
   (exists rest, dl_tagfile d (dl_srcdir build_dir d relpath name) = build_dir ++ rest).
 Proof. exact download_under_build_dir. Qed.
 Print Assumptions C06_downloads_under_build_dir.
+
+(* every rule is defined once: all rule statements of a generated file are NAMED rules (<name>_<hash>), the
+   printed text mentions hashed fields only, so rule statements with one name have one text — and the file
+   keeps each text once (C06_file_shape_partial). The premise is the collision-freeness of the rule hash,
+   stated as the hypothesis it is (as comb_inj in C07). *)
+Theorem C06_rules_are_named : forall H EV b le bsel asel local part select disable cli_env g,
+  generate H EV b le bsel asel local part select disable cli_env = Ok g ->
+  forall r, In (SRule r) (gr_stmts g) -> exists r0, r = named H r0.
+Proof. exact generate_rules_named. Qed.
+Print Assumptions C06_rules_are_named.
+Theorem C06_rule_defined_once : forall H EV b le bsel asel local part select disable cli_env g,
+  (forall r1 r2, rule_hash H r1 = rule_hash H r2 -> hashed_view r1 = hashed_view r2) ->
+  generate H EV b le bsel asel local part select disable cli_env = Ok g ->
+  forall r1 r2, In (SRule r1) (gr_stmts g) -> In (SRule r2) (gr_stmts g) -> nr_name r1 = nr_name r2 ->
+  show_rule r1 = show_rule r2.
+Proof. exact generate_rule_defined_once. Qed.
+Print Assumptions C06_rule_defined_once.
+(* what the hash has to cover for this: a rule that differs from another only in a field that is printed
+   but not hashed would break it — `always` is hashed since 26f0f40 and is not printed in the rule block *)
+Example C06_named_name : forall H r, nr_name (named H r) = nr_name r ++ S_ "_" ++ show_dec (rule_hash H r).
+Proof. reflexivity. Qed.
 
 (* non-vacuity of the checker: a two-statement file with its rule first is accepted, the same
    file with the rule after its use, or with one output twice, is rejected *)
